@@ -125,7 +125,25 @@ def check(case):
             sim = DeterministicSimulator()
             if case.get("hmax_by_setter") and "hmax" in opts:
                 sim.py_set_hmax(opts.pop("hmax"))
+            tols = case.get("tolerances")
+            if tols:
+                # the two documented ways of giving the integrator its tolerances - the simulator's setter and the atol /
+                # rtol keywords of the call - say the same thing: identical trajectories
+                sim.py_set_tolerance(float(tols[0]), float(tols[1]))
+                Mk = specmod.to_model(sp)
+                Ik = ModelCSimInterface(Mk)
+                Ik.py_prep_deterministic_simulation()
+                rk = DeterministicSimulator().py_simulate(Ik, tp, atol=float(tols[0]), rtol=float(tols[1]), **opts)
+                by_keyword = np.asarray(rk.py_get_result(), dtype=float)
+                I.py_prep_deterministic_simulation()
             r = sim.py_simulate(I, tp, **opts)
+            if tols:
+                by_setter = np.asarray(r.py_get_result(), dtype=float)
+                res.label("tolerances_by_setter_and_by_keyword")
+                if by_setter.shape != by_keyword.shape or not np.array_equal(by_setter, by_keyword):
+                    res.fail(("tolerance_setter_differs_from_keywords",), atol=tols[0], rtol=tols[1],
+                             max_difference=float(np.max(np.abs(by_setter - by_keyword))) if by_setter.shape == by_keyword.shape else None)
+                    return res
             order = [M.get_species2index()[s] for s in names]
             got = np.asarray(r.py_get_result(), dtype=float)[:, order]
             tcol = np.asarray(r.py_get_timepoints(), dtype=float)
@@ -286,7 +304,9 @@ def cases(draw):
             grid.append(grid[-1] + d * scale)
     return {"kind": "ode", "family": fam, "spec": sp, "grid": grid,
             "surface": draw(st.sampled_from(["model_api", "simulator", "simulator_batch", "interface_reused"])),
-            "decoy_runs": draw(st.booleans()), "loose_call_before": draw(st.integers(0, 3)) == 0}
+            "decoy_runs": draw(st.booleans()), "loose_call_before": draw(st.integers(0, 3)) == 0,
+            # both at least as tight as the default (1.5e-8), so the accuracy comparison below stays as it is
+            "tolerances": draw(st.sampled_from([None, None, [1e-8, 1e-12], [1e-13, 1e-8], [1e-9, 1e-11], [1e-12, 1e-9]]))}
 
 
 def search(ctx):
